@@ -182,7 +182,7 @@ theorem remakePageF_foot (d : FDoc) (hok : FootOk (callTable d.root) d.root) (in
   -- the state in which the root is laid out
   have hfs0 : StOk { pending := pending, cur := [], reported := [], pageBottom := d.pageH, areaH := none } :=
     ⟨hinv.pnd, by simp [act], by simp [act]⟩
-  obtain ⟨s1, s2, s3⟩ := placeReported_spec (pageCtx d index np) reported 0
+  obtain ⟨s1, s2, s3⟩ := placeReported_spec (pageCtxOf d index resume np right reported) reported 0
     { pending := pending, cur := [], reported := [], pageBottom := d.pageH, areaH := none } hfs0 rfl
     (fun f hf => ⟨hinv.disj f hf, by simp [act]⟩) hinv.rnd
   simp only [act, List.nil_append] at s2
@@ -196,8 +196,8 @@ theorem remakePageF_foot (d : FDoc) (hok : FootOk (callTable d.root) d.root) (in
     | true =>
       -- blank page: the emptied root does nothing
       simp only [hb, ↓reduceIte] at hp hfrag
-      have hst := emptyRootF_state (pageCtx d index np) d.root 0 0 0 resume false true []
-        (pageStart d (pageCtx d index np) pending reported)
+      have hst := emptyRootF_state (pageCtxOf d index resume np right reported) d.root 0 0 0 resume false true []
+        (pageStart d (pageCtxOf d index resume np right reported) pending reported)
       rw [hst] at hp
       subst hp
       have hlines : fragLines f = [] := by
@@ -229,15 +229,15 @@ theorem remakePageF_foot (d : FDoc) (hok : FootOk (callTable d.root) d.root) (in
           have : (!reported.isEmpty && resume.isNone) = true := by simp [hc.1, hc.2]
           simp [isBlankF, this] at hb
         · rfl
-      have hR := boxF_state d.root (pageCtx d index np) hok 0 0 0 resume false true []
-        (pageStart d (pageCtx d index np) pending reported) (fun _ => rfl) s1
+      have hR := boxF_state d.root (pageCtxOf d index resume np right reported) hok 0 0 0 resume false true []
+        (pageStart d (pageCtxOf d index resume np right reported) pending reported) (fun _ => rfl) s1
         (by rw [← hrem]; exact hinv.remnd)
         (by intro g hg; simp only [pageStart]; rw [s3]; apply hinv.rem; rw [hrem]; exact hg)
       rw [hfrag] at hR
       obtain ⟨r1, r2, r3⟩ := hR
       subst hp
       simp only [pageStart] at *
-      have htbl : (pageCtx d index np).tbl = callTable d.root := rfl
+      have htbl : (pageCtxOf d index resume np right reported).tbl = callTable d.root := rfl
       simp only [fragFns_some, htbl] at r2 r3
       refine ⟨by simp only [act] at r2; rw [s2] at r2; exact r2, ?_⟩
       intro hnl
